@@ -16,7 +16,9 @@
 EXTENDS Values
 
 Res(st, data, cnt, uf) == [st |-> st, data |-> data, cnt |-> cnt, uf |-> uf]
-Underflow(st, data) == Res(st, Stomp(data), 0, TRUE)
+\* an underflow invalidates the application: all operands NaN, and nothing stale
+\* is left on the stack for later steps to pop over the NaNs
+Underflow(st, data) == Res(<<>>, Stomp(data), 0, TRUE)
 
 \* push=i1,i2,..: copies of the columns, left to right; the last is TOS
 Push(st, data, args) ==
